@@ -725,6 +725,7 @@ func schemaRunner(prop string, gopts SchemaGenOpts, rule string, post func(c *SC
 		}
 		if prop == "C19" && replay == "" {
 			c19IPFormats(meta)
+			c19Discriminator(meta)
 		}
 		if prop == "C12" && replay == "" {
 			modesWithDefaults(seed, n/4, meta)
@@ -957,6 +958,46 @@ func c19IPFormats(meta *Meta) {
 								"go_observation": r, "judgement": "a reason (or the message with details disabled) repeats the rejected address: " + r})
 							break
 						}
+					}
+				}
+			}
+		}
+	}
+}
+
+// C19, discriminators (Go side; the model has no discriminator): the three discriminator errors of a
+// oneOf, seen through the request validator with a reason-only message function, at the top of the
+// body and below a property - no message may repeat a string of the rejected body
+func c19Discriminator(meta *Meta) {
+	cat := openapi3.NewObjectSchema().WithProperty("kind", openapi3.NewStringSchema()).WithProperty("lives", openapi3.NewIntegerSchema())
+	dog := openapi3.NewObjectSchema().WithProperty("kind", openapi3.NewStringSchema()).WithProperty("good", openapi3.NewBoolSchema())
+	mk := func(mapping bool) *openapi3.Schema {
+		s := &openapi3.Schema{OneOf: openapi3.SchemaRefs{{Ref: "#/components/schemas/Cat", Value: cat}, {Ref: "#/components/schemas/Dog", Value: dog}},
+			Discriminator: &openapi3.Discriminator{PropertyName: "kind"}}
+		if mapping {
+			s.Discriminator.Mapping = map[string]string{"cat": "#/components/schemas/Cat", "dog": "#/components/schemas/Dog"}
+		}
+		return s
+	}
+	const marker = "MARKERq7Zx"
+	values := []any{
+		map[string]any{"kind": marker}, map[string]any{"kind": map[string]any{"x": marker}}, map[string]any{"kind": []any{marker}},
+		map[string]any{"other": marker}, map[string]any{"kind": "cat", "lives": marker}, map[string]any{"kind": "dog", "good": marker},
+	}
+	for _, mapping := range []bool{true, false} {
+		for _, nested := range []bool{false, true} {
+			for _, v := range values {
+				s, val := mk(mapping), v
+				if nested {
+					s = openapi3.NewObjectSchema().WithProperty("pet", s)
+					val = map[string]any{"pet": v}
+				}
+				meta.Histogram["discriminator cases"]++
+				for _, msg := range requestMessages(s, val) {
+					if strings.Contains(msg, marker) {
+						meta.GoViolation = append(meta.GoViolation, map[string]any{"signature": "leak", "cases": []any{map[string]any{"discriminator_mapping": mapping, "below_a_property": nested, "value": val}},
+							"go_observation": msg, "judgement": "a message assembled from reasons alone (custom schema error function returning the reason) repeats a string of the rejected body: " + msg})
+						break
 					}
 				}
 			}
